@@ -63,6 +63,7 @@ Proof.
   unfold beam, beam_fuel, total_links, all_links. rewrite Hn.
   rewrite (beam_loop_ext _ (gn_at s' 0) (gn_at s 0) (cd_search s' getv q) (cd_search s getv q)); auto.
   - destruct (beam_loop _ _ _ _ _) as [c|]; cbn [option_map]; auto.
-    f_equal. apply map_ext. intros c0. unfold row_of, read_node. rewrite Hn. reflexivity.
+    f_equal. generalize (finalize k (b_res c)). intros l. induction l as [|c0 t IHl]; cbn [flat_map]; auto.
+    rewrite IHl. f_equal. unfold result_of, read_node. rewrite Hn. reflexivity.
   - intros x. unfold gn_at, read_node. rewrite Hn. reflexivity.
 Qed.
